@@ -267,6 +267,41 @@ func checkC11(e *Engine, r *Report) {
 				}, nil)
 		}
 		r.MinInstances("purges in RefreshContainers", nd, 1)
+		// … and no cached entry the runtime does not list escapes the purge, whatever its state
+		delPod := e.Fn(pkgCA, "cache.DeletePod")
+		nPurge := 0
+		for _, fn := range []*ssa.Function{rc, e.Fn(pkgCA, "cache.RefreshPods")} {
+			if fn == nil {
+				continue
+			}
+			AllInstrsOf(fn, func(in ssa.Instruction) {
+				lk, ok := in.(*ssa.Lookup)
+				if !ok || !lk.CommaOk {
+					return
+				}
+				// a lookup in the local set of listed ids, keyed by a cached entry's own id (GetID / GetPodID of the ranged element)
+				if _, isMk := lk.X.(*ssa.MakeMap); !isMk {
+					return
+				}
+				c, isCall := lk.Index.(*ssa.Call)
+				if !isCall || callObj(c.Common()) == nil || (callObj(c.Common()).Name() != "GetID" && callObj(c.Common()).Name() != "GetPodID") {
+					return
+				}
+				nPurge++
+				bp := FindPath(PathQuery{Fn: fn, From: lk, Assume: okOf(lk, false),
+					Block: func(x ssa.Instruction) bool { return e.IsCallTo(x, fset(del, delPod)) },
+					Target: func(x ssa.Instruction) bool {
+						if _, isNext := x.(*ssa.Next); isNext {
+							return true
+						}
+						_, isRet := x.(*ssa.Return)
+						return isRet
+					}})
+				r.Check("R7:unlisted-always-purged@"+fn.Name(), "data-flow refresh semantics", "every cached pod/container the runtime does not list is purged, whatever state the cache had recorded for it", e.InstrPos(lk), fn, bp == nil,
+					"an unlisted entry can stay in the cache: "+e.pathString(bp), true)
+			})
+		}
+		r.MinInstances("purge decisions in RefreshPods/RefreshContainers", nPurge, 3)
 		src := &sliceSrc{}
 		for _, ret := range Returns(rc) {
 			traceSlice(e, rc, retValue(ret, 1), src, map[ssa.Value]bool{}, 0)
